@@ -18,6 +18,7 @@ mod shapes;
 
 mod e_c01;
 mod e_c05;
+mod e_decode;
 mod e_emit;
 mod e_c06;
 mod e_c16;
@@ -78,6 +79,7 @@ fn main() {
         "c02" => e_emit::run(&ctx, false),
         "c04" => e_emit::run(&ctx, true),
         "c05" => e_c05::run(&ctx),
+        "decode" => e_decode::run(&ctx),
         "c06" => e_c06::run(&ctx),
         "c16" => e_c16::run(&ctx),
         "c18" => e_c18::run(&ctx),
